@@ -593,8 +593,8 @@ var (
 
 	c15Methods = []string{"GET", "GET", "GET", "POST", "POST", "PUT", "PATCH", "DELETE", "HEAD", "OPTIONS", "TRACE", "PROPFIND", "get", "M-SEARCH"}
 
-	c15QKeys = []string{"a", "a", "b", "c", "%61", "a%20b", "a+b", "A", "", "x.y", "k%26", "%zz", "a;"}
-	c15QVals = []string{"1", "2", "", "x", "%2F", "%2f", "a+b", "a%20b", "%26", "%3D", "1;2", "%zz", "%", "\xc3\xa9", "%C3%A9", "~", "a=b", "*"}
+	c15QKeys  = []string{"a", "a", "b", "c", "%61", "a%20b", "a+b", "A", "", "x.y", "k%26", "%zz", "a;"}
+	c15QVals  = []string{"1", "2", "", "x", "%2F", "%2f", "a+b", "a%20b", "%26", "%3D", "1;2", "%zz", "%", "\xc3\xa9", "%C3%A9", "~", "a=b", "*"}
 	c15QStrip = []string{"a", "b", "a b", "c", "zz", "A", "k&", "x.y", ""}
 
 	c15Adds    = []string{"/up", "/up", "/v2/svc", "/v2/svc", "/u%2Fp", "/%41", "up", "/", "/a;b", "/p%3Bq", "/a!b", "/x/", "/%C3%A4"}
@@ -603,7 +603,7 @@ var (
 	c15PNames = []string{"X-User", "x-user", "X-uSeR", "Authorization", "authorization", "X-Id", "x-id", "X-Forwarded-Method", "x-forwarded-uri", "X-Forwarded-Path",
 		"Host", "host", "Cookie", "Accept-Encoding", "User-Agent", "X-Custom-1", "x-custom-1", "X-Real-Ip"}
 	c15PFwdNames = []string{"X-Forwarded-For", "Forwarded", "X-Forwarded-Proto", "x-forwarded-host"}
-	c15CNames = []string{"X-User", "x-user", "X-USER", "Authorization", "AUTHORIZATION", "X-Id", "X-ID", "x-custom-1", "X-Custom-1", "Accept", "Accept-Encoding", "Range", "User-Agent",
+	c15CNames    = []string{"X-User", "x-user", "X-USER", "Authorization", "AUTHORIZATION", "X-Id", "X-ID", "x-custom-1", "X-Custom-1", "Accept", "Accept-Encoding", "Range", "User-Agent",
 		"X-Real-Ip", "Cookie", "cookie", "X-Other", "X-Drop"}
 	c15Vals = []string{"alice", "bob", "Bearer abc.def", "1", "a, b", "x;y=z", "\"q\"", "v1", "gzip", "bytes=0-1", "curl/8", "a  b", "\xc3\xa9"}
 
